@@ -1,6 +1,8 @@
 import PyTrie.Props.NonVacuity5
 import PyTrie.Props.C04Shared
 import PyTrie.Props.C12History
+import PyTrie.Props.C09Termination
+import PyTrie.Props.NonVacuity8
 /-! # Non-vacuity, part 10: several tries over one database (C04), earlier roots of a binary trie (C12)
 
 1. A Boolean checker for `C04.SGood`, its soundness, an interleaved history — two fresh non-pruning tries written to
@@ -153,4 +155,32 @@ theorem old_roots_spec :
   decide +kernel
 
 end BinOld
+end PyTrie.Props.NonVacuity10
+
+/-! ## 3. Termination bound on the concrete walk of part 8 -/
+namespace PyTrie.Props.NonVacuity10
+open PyTrie PyTrie.Hex PyTrie.Hex.Node PyTrie.HexD PyTrie.Fog PyTrie.Walk
+open PyTrie.Props.NonVacuity (toyH toyH_len)
+open PyTrie.Props.NonVacuity8
+
+/-- the key-length premise as a test on the stored items -/
+theorem keys_short_of_items (t : Node) (hc : Canon t) (L : Nat)
+    (h : (itemsOf t).all (fun e => decide (e.1.length ≤ L)) = true) : ∀ k, Hex.get t k ≠ [] → k.length ≤ L := by
+  intro k hk
+  have hm := (itemsOf_mem t hc k (Hex.get t k)).2 ⟨hk, rfl⟩
+  simpa using List.all_eq_true.1 h _ hm
+
+/-- every version the five-step walk of part 8 consults stores keys of at most two nibbles -/
+theorem sched8_keys_short : ∀ e ∈ sched, ∀ k, Hex.get e.t k ≠ [] → k.length ≤ 2 := by
+  intro e he
+  have hc : Canon e.t := (sched_ok.1 e he).1
+  have hall : sched.all (fun e => (itemsOf e.t).all (fun x => decide (x.1.length ≤ 2))) = true := by decide +kernel
+  exact keys_short_of_items e.t hc 2 (List.all_eq_true.1 hall e he)
+
+/-- **`C09.raw_walk_length_bounded` applies** to the walk interleaved with a pruning history (retry on a stale cached parent
+    included): 5 steps + what is left of the fog stay below `17^3` -/
+theorem walk_bound_witness (r : CStateD) (hrun : crunDR toyH cstartD (sched.map StepT.toD) = .ok (some r)) :
+    sched.length + mu 2 r.fog ≤ 17 ^ 3 ∧ sched.length + r.fog.length ≤ 17 ^ 3 :=
+  C09.raw_walk_length_bounded toyH toyH_len 2 sched sched_ok sched8_keys_short r hrun
+
 end PyTrie.Props.NonVacuity10
